@@ -357,7 +357,9 @@ func TrickyCases(rng *rand.Rand, prefix string) []Case {
 		b.f.Services = []svcdesc.Service{{Name: "Svc", Methods: ms}}
 		out = append(out, b.build("tricky:"+why, "either", describe(ms)))
 	}
-	for _, mn := range []string{"NewManager", "ConfigurationFromRaw", "AsyncRep", "CorrectableRep", "CorrectableStreamRep", "internalRep", "InternalRep", "Svc2", "RegisterSvcServer", "Message", "Server", "Context"} {
+	// (lower-case and snake-case spellings become the reserved Go identifiers Node, Manager, Configuration, QuorumSpec, NewManager, ...)
+	for _, mn := range []string{"NewManager", "ConfigurationFromRaw", "AsyncRep", "CorrectableRep", "CorrectableStreamRep", "internalRep", "InternalRep", "Svc2", "RegisterSvcServer", "Message", "Server", "Context",
+		"node", "manager", "configuration", "quorumSpec", "quorum_spec", "new_manager", "newManager", "configuration_from_raw"} {
 		mn := mn
 		mk("message-named-"+mn, func(b *builder) []svcdesc.Method {
 			in := b.addMsg("Req")
@@ -430,6 +432,19 @@ func TrickyCases(rng *rand.Rand, prefix string) []Case {
 				return []svcdesc.Method{m, {Name: "Plain", In: in, Out: out, Opts: svcdesc.Opts{Quorumcall: true}}}
 			})
 		}
+	}
+	for _, sn := range []string{"Node", "Manager", "Configuration", "QuorumSpec", "node", "manager", "NewManager", "ConfigurationFromRaw", "Server", "Message"} {
+		sn := sn
+		n++
+		b := newBuilder(rng, fmt.Sprintf("%s%d", prefix, n))
+		in, rep := b.addMsg("Req"), b.addMsg("Rep")
+		ms := []svcdesc.Method{
+			{Name: "Q", In: in, Out: rep, Opts: svcdesc.Opts{Quorumcall: true}},
+			{Name: "A", In: in, Out: rep, Opts: svcdesc.Opts{Quorumcall: true, Async: true}},
+			{Name: "M", In: in, Out: b.addMsg("Nothing"), Opts: svcdesc.Opts{Multicast: true}},
+		}
+		b.f.Services = []svcdesc.Service{{Name: sn, Methods: ms}}
+		out = append(out, b.build("tricky:service-named-"+sn, "either", describe(ms)))
 	}
 	mk("only-plain-rpc", func(b *builder) []svcdesc.Method {
 		in := b.addMsg("Req")
